@@ -5,6 +5,8 @@ from contracts import codec
 PROPERTY = "C11"
 LEVEL = "proof"
 ASSUMPTIONS = [
+    "class invariant of PresentationContext used as a precondition: the empty UID is never in _transfer_syntax - proved by "
+    "TsInvariantTask on the real add_transfer_syntax + validate_uid; assumed library fact: pydicom UID('').is_valid is False",
     "the A-ASSOCIATE-AC carries (context id, result, one transfer syntax) per context and the role reply items unchanged "
     "(C01: primitive -> PDU -> bytes -> primitive round trip; its obligations are re-proved under this id)",
     "acceptor side: C10 postconditions; requires as in C10; requested contexts have distinct odd ids",
@@ -15,7 +17,7 @@ ASSUMPTIONS = [
 
 
 def tasks(tier):
-    ts = [N.NegRequestorTask("C11/"), N.CompositionTask("C11/"), N.RoleTableTask("C11/")]
+    ts = [N.NegRequestorTask("C11/"), N.CompositionTask("C11/"), N.RoleTableTask("C11/"), N.TsInvariantTask("C11/")]
     # wire form of the result list and of the role items (subset of the C01 tasks)
     ts += [codec.PrimTask("A_ASSOCIATE/ac", (2, 1, ("MaximumLengthNotification", "ImplementationClassUIDNotification")), "C11/"),
            codec.PrimTask("A_ASSOCIATE/ac", (1, 1, ("MaximumLengthNotification", "ImplementationClassUIDNotification",
@@ -26,7 +28,8 @@ def tasks(tier):
 
 def replay(rec):
     from pyvc.replay import run_replay
-    return run_replay("C11", rec)
+    # the class-invariant obligation shared with C10 is replayed by C10's harness
+    return run_replay("C10" if "add_transfer_syntax" in rec.get("id", "") else "C11", rec)
 
 
 LEVEL_TEXT = ("negotiate_as_requestor verified by induction over the requested contexts (one output per id, acceptor's result and "
